@@ -146,9 +146,9 @@ def gen_histories(tier, rng, push_every=6):
     for ci, cfg in enumerate(CFGS):
         for sname in names:
             seq = STREAMS[sname]
-            positions = range(0, len(seq) + 1) if tier == "thorough" else [0, 1, 3, 4, 6, 9, len(seq)]
+            positions = range(0, len(seq) + 1)
             for pos in positions:
-                if tier == "quick" and (ci * 7 + pos + len(sname)) % 3 != 0:
+                if tier == "quick" and (ci * 7 + pos + len(sname)) % 2 != 0:
                     continue
                 c = dict(cfg)
                 if count % push_every == 0:
@@ -172,7 +172,7 @@ def gen_histories(tier, rng, push_every=6):
                 count += 1
                 yield Case(h.line(), cls="join-at-%s" % sname)
     # random histories with re-publishing, several consumers, leaves
-    n = 120 if tier == "quick" else 1500
+    n = 400 if tier == "quick" else 4000
     for k in range(n):
         cfg = dict(rng.choice(CFGS))
         cfg["mw"] = rng.choice([0, 0, 1, 4000, 8192, 30000])
